@@ -324,7 +324,7 @@ def _pcacd_tasks(tier, cfgs):
 def tasks(tier, seed):
     out = []
     for name, d in DRIVERS.items():
-        cfgs = d.configs(tier)
+        cfgs = d.all_configs(tier)
         if name == "PCACD":
             out += _pcacd_tasks(tier, cfgs)
             continue
@@ -391,7 +391,7 @@ def describe(tier):
             "depth": {k: (v[0] if tier == "quick" else v[1]) for k, v in PLAN.items()},
             "PCACD": "deviation-bounded, L=5w+2, k=%d" % (2 if tier == "quick" else 3),
             "alphabets": {k: list(map(str, d.symbols)) for k, d in DRIVERS.items()},
-            "parameter_sets": {k: len(d.configs(tier)) for k, d in DRIVERS.items()},
+            "parameter_sets": {k: len(d.all_configs(tier)) for k, d in DRIVERS.items()},
         },
         "explanation": "lifecycle monitor (state domain, total counter, since-reset counter incl. detector specific restart "
         "values, warm-up table, retraining_recs) evaluated after every call on the real detector; states are tree nodes",
